@@ -175,7 +175,12 @@ def _intify(spec):
     if k == "sphere":
         return (k, spec[1], I(spec[2]), I(spec[3]))
     if k == "spheres":
-        return (k, [(n, I(r), I(c)) for n, r, c in spec[1]])
+        # (+1 on the last member: the centroid of integer coordinates must
+        # not be integer-valued itself)
+        mem = [(n, I(r), I(c)) for n, r, c in spec[1]]
+        n, r, c = mem[-1]
+        mem[-1] = (n, r, tuple(v + 1 for v in c))
+        return (k, mem)
     if k == "spheroid":
         return (k, spec[1], I(spec[2]), spec[3], I(spec[4]))
     raise ValueError(k)
@@ -196,6 +201,10 @@ def _run_intunits(case, ck):
             scat_i = Spheres([Sphere(n=n, r=r, center=np.array(c))
                               for n, r, c in ispec[1]])
         scat_f = H.mk_scatterer(sspec, 1000.0)
+        if ispec[0] == "spheres":
+            from holopy.scattering import Sphere, Spheres
+            scat_f = Spheres([Sphere(n=n, r=float(r), center=tuple(
+                float(v) for v in c)) for n, r, c in ispec[1]])
         det_i = hp.detector_grid((4, 5), (100, 130))
         det_f = H.det_grid((4, 5), (0.1, 0.13), scale=1000.0)
         for fn in (calc_holo, calc_field):
